@@ -7,8 +7,11 @@ the spec through the public constructors only.  After every operation
              instance attribute of every commonroad object reachable from the scenario and the planning-problem set, incl. which
              attributes each state has and the goal-lanelet tables with their dict type) must equal the snapshot before, and the
              XML and protobuf exports (date stamp erased) must be byte-identical to the exports made before the first operation;
-  * CORRESPONDENCE   the abstract view (attribute lists of all states, goal tables, hidden cache flags) and the abstract answer of
-             the operation are compared with the Lean model CR.Frame run on the same operation sequence.
+  * CORRESPONDENCE   the abstract view (attribute lists of all states with value tokens, predictions, lanelets, lights, goal
+             tables) and the abstract answer of the operation (incl. what both written files contain) are compared with the Lean
+             model CR.Frame run on the same operation sequence; agreement of the hidden cache flags is recorded, not judged.
+  At the end of a case the operated scenario is compared with an untouched twin built from the same spec (snapshot and a
+  fixed set of probing queries).
 """
 from __future__ import annotations
 
@@ -1046,7 +1049,7 @@ def abs_pred(p, I):
         return {"k": "set", "occs": occs}
     assert isinstance(p, TrajectoryPrediction)
     return {"k": "traj", "t1": int(p.trajectory.initial_time_step), "shape": I.tok(p.shape),
-            "states": [abs_state(x, I) for x in p.trajectory.state_list], "cache": "occupancy_set" in p.__dict__}
+            "states": [abs_state(x, I) for x in p.trajectory.state_list], "cache": "occupancy_set" in getattr(p, "__dict__", {})}
 
 
 def abstract(sc, pps, I, cells):
@@ -1175,27 +1178,30 @@ class Spy:
         from commonroad.prediction.prediction import TrajectoryPrediction
         from commonroad.scenario.traffic_light import TrafficLightCycle
         self._preds, self._cycles = [], []
-        self._orig_create = TrajectoryPrediction._create_occupancy_set
-        self._orig_prop = TrafficLightCycle.__dict__["cycle_init_timesteps"]
+        self.occ, self.light = [], []
+        self._orig_create = TrajectoryPrediction.__dict__.get("_create_occupancy_set")
+        self._orig_prop = TrafficLightCycle.__dict__.get("cycle_init_timesteps")
         spy = self
         orig_create, orig_prop = self._orig_create, self._orig_prop
-
-        def _create_occupancy_set(self):
-            spy._preds.append(id(self))
-            return orig_create(self)
-
-        def cycle_init_timesteps(self):
-            spy._cycles.append(id(self))
-            return orig_prop.fget(self)
-        TrajectoryPrediction._create_occupancy_set = _create_occupancy_set
-        TrafficLightCycle.cycle_init_timesteps = property(cycle_init_timesteps)
+        if callable(orig_create):
+            def _create_occupancy_set(self):
+                spy._preds.append(id(self))
+                return orig_create(self)
+            TrajectoryPrediction._create_occupancy_set = _create_occupancy_set
+        if isinstance(orig_prop, property):
+            def cycle_init_timesteps(self):
+                spy._cycles.append(id(self))
+                return orig_prop.fget(self)
+            TrafficLightCycle.cycle_init_timesteps = property(cycle_init_timesteps)
         return self
 
     def __exit__(self, *a):
         from commonroad.prediction.prediction import TrajectoryPrediction
         from commonroad.scenario.traffic_light import TrafficLightCycle
-        TrajectoryPrediction._create_occupancy_set = self._orig_create
-        TrafficLightCycle.cycle_init_timesteps = self._orig_prop
+        if callable(self._orig_create):
+            TrajectoryPrediction._create_occupancy_set = self._orig_create
+        if isinstance(self._orig_prop, property):
+            TrafficLightCycle.cycle_init_timesteps = self._orig_prop
         by_pred = {id(o.prediction): o.obstacle_id for o in self.sc.dynamic_obstacles + self.sc.phantom_obstacle if o.prediction is not None}
         by_cycle = {id(l.traffic_light_cycle): l.traffic_light_id for l in self.sc.lanelet_network.traffic_lights}
         self.occ = [by_pred[i] for i in self._preds if i in by_pred]
@@ -1238,6 +1244,22 @@ def _opkey(op):
 _LAST = {}
 
 
+def _observable(view):
+    """state view without the hidden cache flags"""
+    obs = []
+    for o in view["obstacles"]:
+        p = o.get("pred")
+        if isinstance(p, dict) and p.get("k") == "traj":
+            o = dict(o, pred={k: v for k, v in p.items() if k != "cache"})
+        obs.append(o)
+    return {"obstacles": obs, "lanelets": view["net"]["lanelets"], "lights": [l[:3] for l in view["lights"]], "problems": view["problems"]}
+
+
+def _hidden(view):
+    return [[o["id"], o["pred"]["cache"]] for o in view["obstacles"] if isinstance(o.get("pred"), dict) and o["pred"].get("k") == "traj"] + \
+           [view["net"]["index"]] + [[l[0], l[3]] for l in view["lights"]]
+
+
 def _norm_occ(v):
     return None if v is None else ([v, v] if isinstance(v, int) else list(v))
 
@@ -1266,9 +1288,9 @@ def _compare_answer(mode, impl, model, amb, op):
             return None
         ok = v == [sorted(x) for x in m]
     elif mode == "copy":
-        ok = v == m
+        ok = _observable(v) == _observable(m)
         if not ok:
-            return f"copy differs at {first_diff(v, m)}"
+            return f"copy differs at {first_diff(_observable(v), _observable(m))}"
     elif mode in ("file-xml", "file-pb"):
         fmt = mode[5:]
         want = _model_file(m, fmt)
@@ -1395,11 +1417,14 @@ def run_case(ctx, case, with_model=True, old_pb=False):
     impl_l, model_l, what = [], [], ""
     for (mop, mode, ans, view, amb, op), mr in zip(steps, mres):
         bad = _compare_answer(mode, ans, mr["out"], amb, op)
-        vd = first_diff(view, mr["st"])
+        # the observable part of the state view is compared strictly; where the hidden cache flags sit (private slots, their
+        # names are an implementation detail) is only recorded: a rewrite that caches differently is not a disagreement
+        ctx.tag("hidden-cache-flags:" + ("agree" if _hidden(view) == _hidden(mr["st"]) else "differ"))
+        vd = first_diff(_observable(view), _observable(mr["st"]))
         if (bad or vd) and not what:
             what = f"step {len(impl_l)} {op[:3]} (model op {json.dumps(mop)[:80]}): " + (f"state view differs at {vd}; " if vd else "") + (bad or "")
-        impl_l.append({"view": view, "answer_agrees": bad is None})
-        model_l.append({"view": mr["st"], "answer_agrees": True})
+        impl_l.append({"view": _observable(view), "answer_agrees": bad is None})
+        model_l.append({"view": _observable(mr["st"]), "answer_agrees": True})
     ctx.compare(case, impl_l, model_l, what or "read-only operation sequence vs CR.Frame.trace")
 
 
